@@ -164,6 +164,8 @@ func init() {
 						return "err:append-colcount"
 					case strings.Contains(err3.Error(), "data shape mismatch"):
 						return "err:append-names"
+					case strings.Contains(err3.Error(), "data type mismatch"):
+						return "err:append-types"
 					}
 					return "err:other"
 				}
@@ -289,12 +291,12 @@ func genC27(g *Gen) {
 			if g.Thorough() && g.Intn(40) == 0 {
 				rows = 100 + g.Intn(10000)
 			}
-			if mode == 0 && (g.Intn(2) == 0 || b == nb-1 && !zero) { // F13: zero-length series
+			if mode <= 1 && (g.Intn(2) == 0 || b == nb-1 && !zero) { // zero-length series (C27-F13, repaired)
 				rows = 0
 				zero = true
 			}
 			bsc := sc
-			if b > 0 && mode == 1 { // Append compares names only
+			if b > 0 && mode == 2 { // differing column types: refused by Append (C27-F27, repaired)
 				bsc = append([]col(nil), sc...)
 				k := g.Intn(len(bsc))
 				switch g.Intn(3) {
@@ -311,7 +313,7 @@ func genC27(g *Gen) {
 					diff = "types_bool_later_bucket"
 				}
 			}
-			if b > 0 && mode == 2 {
+			if b > 0 && mode == 3 {
 				bsc = append([]col(nil), sc...)
 				switch g.Intn(3) {
 				case 0:
@@ -327,7 +329,7 @@ func genC27(g *Gen) {
 					diff = "colcount_less"
 				}
 			}
-			if mode == 3 && b == 0 && g.Intn(2) == 0 {
+			if mode == 4 && b == 0 && g.Intn(2) == 0 {
 				bsc = append([]col(nil), sc...)
 				bsc[g.Intn(len(bsc))].typ = 6
 				diff = "types_bool_first_bucket"
